@@ -97,7 +97,7 @@ var c05ExhaustiveCount = c05NumStarts * (c05AlphabetSize + c05AlphabetSize*c05Al
 
 func c05AlphaOp(r *fw.Rand, k int) c05Op {
 	if k < len(c05IDs)*len(c05Lens) {
-		return c05Op{kind: 0, id: c05IDs[k/len(c05Lens)], val: r.Bytes(c05Lens[k%len(c05Lens)])}
+		return c05Op{kind: 0, id: c05IDs[k/len(c05Lens)], val: gen.Value(r, c05Lens[k%len(c05Lens)])}
 	}
 	return c05Op{kind: 1, id: c05IDs[k-len(c05IDs)*len(c05Lens)]}
 }
@@ -596,7 +596,7 @@ func c05Random(c *fw.Ctx, i int) {
 				ln = r.Range(0, 300)
 			}
 			used = append(used, id)
-			val := r.Bytes(ln)
+			val := gen.Value(r, ln)
 			if len(passed) > 0 && r.Chance(1, 5) {
 				// hand the library a slice it was given before (same storage for two ids), or a window into one,
 				// or fresh bytes of exactly the length of an earlier value
